@@ -490,3 +490,40 @@ theorem end_facts {cap bm mw : Nat} {ns : Option Nat} {soe : Bool} {inputs : Lis
     exact (h1.symm.trans h2).trans (List.Perm.flatMap_right _ hv.symm)
 
 end MlModel.Piter
+
+namespace MlModel.Piter
+open MlModel.Queue
+
+variable {F : Nat → Option (List Nat)}
+
+/-! ### replaying a schedule (for the non-vacuity examples) -/
+
+/-- run a schedule of thread ids (no timeout alternatives) -/
+def exec (F : Nat → Option (List Nat)) : Cfg → List Tid → Option Cfg
+  | c, [] => some c
+  | c, tid :: rest =>
+    match step F c tid false with
+    | none => none
+    | some (_, c') => exec F c' rest
+
+theorem reachable_of_exec : ∀ (sched : List Tid) (c c' : Cfg), exec F c sched = some c' → Reachable F c c' := by
+  intro sched
+  induction sched with
+  | nil => intro c c' h; simp only [exec, Option.some.injEq] at h; rw [← h]; exact .init
+  | cons x xs ih =>
+    intro c c' h
+    simp only [exec] at h
+    split at h
+    · cases h
+    · rename_i lbl c1 hs
+      have h1 := ih c1 c' h
+      clear h ih
+      induction h1 with
+      | init => exact .step .init hs
+      | step _ hs2 ih2 => exact .step ih2 hs2
+
+theorem reachable_exec (c : Cfg) (sched : List Tid) (h : (exec F c sched).isSome = true) :
+    Reachable F c ((exec F c sched).get h) :=
+  reachable_of_exec sched c _ (Option.some_get h).symm
+
+end MlModel.Piter
